@@ -251,6 +251,18 @@ def neat_facts():
   return {'matching10': tenths['matching_coefficient'], 'threshold10': tenths['compatibility_threshold']}
 
 
+def dedup_multi_objective_fact():
+  """Does `Deduping` forward `multi_objective` to the generator it wraps?"""
+  _, tree = common.parse_source(DEDUP)
+  cls = common.find_class(tree, 'Deduping')
+  fn = common.find_func_opt(cls, 'multi_objective')
+  if fn is None:
+    return False
+  if 'return self.generator.multi_objective' not in ast.unparse(fn):
+    raise TranslatorError('Deduping.multi_objective: unknown shape')
+  return True
+
+
 def run():
   forwards, d_info = dedup_facts()
   order, bump, per_call, e_info = evo_facts()
@@ -258,6 +270,7 @@ def run():
   pipes = pipeline_facts()
   sw = stepwise_fact()
   neat = neat_facts()
+  fwd = dedup_multi_objective_fact()
   lean = '''/- GENERATED by translate/t_c15.py from the current source of /repo — do not edit. -/
 import PgModel.Gen
 import PgModel.Nsga2
@@ -278,13 +291,17 @@ def stepWiseStateful : Bool := %s
 /-- Default coefficients of `pg.evolution.neat` (tenths); pipeline and `speciate` shape checked by the translator. -/
 def neatFacts : Neat.Facts := { matching10 := %d, threshold10 := %d }
 
+/-- `Deduping.multi_objective` forwards to the wrapped generator (false: a Deduping around a
+multi-objective algorithm rejects every tuple reward, finding F395). -/
+def dedupForwardsMultiObjective : Bool := %s
+
 end Pg.C15
 ''' % (common.lean_bool(forwards), common.lean_bool(order), common.lean_bool(bump), common.lean_bool(per_call),
        nf['initFactor'], common.lean_bool(nf['boundaryOverwrites']), common.lean_bool(nf['descending']), common.lean_bool(sw),
-       neat['matching10'], neat['threshold10'])
+       neat['matching10'], neat['threshold10'], common.lean_bool(fwd))
   sidecar = {'sources': {DEDUP: common.sha(DEDUP), EVO: common.sha(EVO), NSGA2: common.sha(NSGA2),
                          REGEVO: common.sha(REGEVO), HILL: common.sha(HILL), STEPWISE: common.sha(STEPWISE), NEAT: common.sha(NEAT)},
-             'nsga2': nf, 'pipelines': pipes, 'stepWiseStateful': sw, 'neat': neat,
+             'nsga2': nf, 'pipelines': pipes, 'stepWiseStateful': sw, 'neat': neat, 'dedupForwardsMultiObjective': fwd,
              'quirks': {'dedupForwardsReplay': forwards, 'evoProposalOrder': order, 'evoInitGenBump': bump,
                         'evoInitDonePerCall': per_call},
              'matched': {'deduping': d_info, 'evolution': e_info}}
